@@ -27,6 +27,7 @@ type Options struct {
 	KnownByteConv       bool // byte(x) of a wider integer
 	KnownLoopVarCapture bool // closure capturing a for-loop variable
 	KnownNilMap         bool // reading / ranging over a nil map (var m map[K]V)
+	KnownOverlapCopy    bool // copy(dst, src) with dst and src sharing a backing array
 }
 
 func DefaultOptions() Options {
@@ -134,7 +135,15 @@ type variable struct {
 	used       bool
 	knownLen   int // for slices with statically known length (>0), else -1
 	loopVar    bool
-	u8spelled  bool // static type is spelled uint8 (from a uint8(..) conversion), which goose cannot name
+	u8spelled  bool      // static type is spelled uint8 (from a uint8(..) conversion), which goose cannot name
+	root       *variable // for a slice obtained by subslicing: the slice whose backing array it shares
+}
+
+func (v *variable) rootOf() *variable {
+	if v.root != nil {
+		return v.root
+	}
+	return v
 }
 
 type scope struct {
@@ -788,7 +797,14 @@ func (g *G) assign(sc *scope) bool {
 				op = "+="
 			}
 			g.feat("assign-var" + op + "-" + v.t.K)
-			rhs := g.expr(sc, v.t, 1)
+			var rhs string
+			if v.t.K == "string" && g.loopDepth > 0 {
+				// a string that is rebuilt from strings inside nested loops grows exponentially (res += res + res
+				// in a 4x5x4 nest never finishes natively): inside loops only literals are appended / assigned
+				rhs = g.strLit()
+			} else {
+				rhs = g.expr(sc, v.t, 1)
+			}
 			g.line("%s %s %s", v.name, op, rhs)
 			if v.t.isInt() && (v.t.K == "u64" || g.opt.KnownIncDecNarrow) && g.rng.Chance(25) {
 				g.feat("incdec-" + v.t.K)
@@ -1275,6 +1291,11 @@ func (g *G) copyStmt(sc *scope) {
 	for _, d := range ss {
 		for _, s := range ss {
 			if d != s && d.t.eq(s.t) {
+				if d.rootOf() == s.rootOf() && !g.opt.KnownOverlapCopy {
+					// copy between slices of one backing array: Go copies as if through a temporary (memmove),
+					// GooseLang's SliceCopy copies forward element by element (recorded finding overlapping-copy)
+					continue
+				}
 				g.feat("copy")
 				d.used, s.used = true, true
 				if g.rng.Bool() {
@@ -1315,7 +1336,7 @@ func (g *G) sliceStmt(sc *scope) {
 			if kl == 0 {
 				kl = -1
 			}
-			sc.vars = append(sc.vars, &variable{name: n, t: v.t, knownLen: kl})
+			sc.vars = append(sc.vars, &variable{name: n, t: v.t, knownLen: kl, root: v.rootOf()})
 			return
 		}
 	}
